@@ -2730,13 +2730,18 @@ PROPS = {
     'C08': {
         'run': run_C08,
         'pinned': ['C08_septic_exact_R', 'C08_quintic_exact_R', 'C08_cubic_exact_R', 'C08_linear_exact_R',
-                   'C08_septic_linear_R', 'C08_quintic_linear_R', 'C08_cubic_linear_R', 'C08_linear_linear_R'],
-        'unproved': ['C08_sine_full: classical interpolation error bound for sinusoids (stated as a Prop, not proved)',
+                   'C08_septic_linear_R', 'C08_quintic_linear_R', 'C08_cubic_linear_R', 'C08_linear_linear_R',
+                   'C08_linear_error_R', 'C08_cubic_error_R', 'C08_quintic_error_R', 'C08_septic_error_R',
+                   'C08_linear_sine_R', 'C08_cubic_sine_R', 'C08_quintic_sine_R', 'C08_septic_sine_R',
+                   'C08_sine_full_proved', 'C08_chain_example'],
+        'unproved': [
                      '"to rounding": the size of the floating-point deviation from the exact polynomial is not bounded by a theorem '
                      '(the bit-exact model measures it on every run)'],
         'assumptions': ['ideal (real-number) reading of the generated interpolators: rounding erased, nothing else',
                         'IEEE-754 conformance of rustc/LLVM/x86-64 for + - * / (what makes the bit-exact comparison meaningful)'],
-        'trusted_base': ['Coq Reals axioms (ClassicalDedekindReals.sig_forall_dec, functional_extensionality_dep) via ring/field on R'],
+        'trusted_base': ['Coq Reals axioms (ClassicalDedekindReals.sig_forall_dec, sig_not_dec, functional_extensionality_dep) via ring/field on R',
+                         'Coquelicot 3.2 (is_derive, auto_derive) and the standard-library Rolle theorem for the interpolation error bound; '
+                         'Classical_Prop.classic through them'],
     },
     'C12': {
         'run': run_C12,
